@@ -25,7 +25,7 @@ COMBOS = [("JSONDict", None), ("JSONList", None), ("BufferedJSONDict", None), ("
           ("MemoryBufferedJSONDict", None), ("JSONAttrDict", None)]
 PROGRAMS = {"quick": 12, "thorough": 200}
 SHARD_TIMEOUT = {"quick": 600, "thorough": 5400}
-BUDGET = {"quick": 30, "thorough": 900}
+BUDGET = {"quick": 30, "thorough": 400}
 
 D_WRITES = ["setitem", "delitem", "update", "setdefault", "pop"]
 L_WRITES = ["append", "insert", "pop", "extend", "setitem", "delitem"]
